@@ -3,7 +3,7 @@
 EXTENDS MC_EvalBase
 
 \* ---- C06: one notion of truthiness
-CondExprs == { KwL("null"), KwL("true"), KwL("false"), N(0), N(1), ND(FALSE, <<5>>, -1), ND(FALSE, <<1>>, -400), ND(FALSE, <<1>>, 400), P(<<"Bin", "*", ND(FALSE, <<1>>, -200), ND(FALSE, <<1>>, -200)>>), S(<<>>), S(<<48>>), S(<<97>>),
+CondExprs == { KwL("null"), KwL("true"), KwL("false"), N(0), N(1), ND(FALSE, <<5>>, -1), ND(FALSE, <<1>>, -400), ND(FALSE, <<1>>, 400), P(<<"Bin", "*", ND(FALSE, <<1>>, -200), ND(FALSE, <<1>>, -200)>>), S(<<>>), S(<<48>>), S(<<97>>), S(<<32>>), S(<<9,10>>), S(<<194,160>>), S(<<227,128,128>>),
                <<"Arr", <<>>>>, <<"Arr", <<N(0)>>>>,
                Id("nan"), Id("pinf"), Id("ninf"), Id("negzero"), Id("zerof"), Id("int0"), Id("int5"), Id("s0"), Id("sa"),
                Id("m"), Id("mt"), Id("sl"), Id("np"), Id("nl"), Id("rec"), Id("undefined"), Id("bt"), Id("bf"), Id("t0"), Id("t1"), Id("st"), Id("ss0"),
